@@ -43,6 +43,8 @@ structure Usable (P : Params) (h : Heap) (s : Sketch) : Prop where
   mm0 : s.n = 0 → stAt h s.self 0 = .raw ∧ stAt h s.self 1 = .raw
   mm1 : s.n ≠ 0 → (∃ v, stAt h s.self 0 = .live v) ∧ (∃ v, stAt h s.self 1 = .live v)
   ret : s.n ≠ 0 → s.levels.getD 0 0 < s.itemsSize
+  wt : sumSampleWeights s.numLevels s.levels = s.n
+  pw : s.numLevels = 1 ∨ 2 ^ (s.numLevels - 1) ≤ s.n
 
 theorem Usable.inv {P : Params} {h : Heap} {s : Sketch} (u : Usable P h s) : Inv P h s := u.toInv
 
@@ -70,7 +72,7 @@ theorem Inv.transfer {P : Params} {h h' : Heap} {s : Sketch} (so : ∀ b, b ∈ 
 theorem Usable.transfer {P : Params} {h h' : Heap} {s : Sketch} (so : ∀ b, b ∈ owned s → SameOn h h' b)
     (hn : h.next ≤ h'.next) (u : Usable P h s) : Usable P h' s := by
   have ss := so _ (mem_owned.2 (Or.inl rfl))
-  refine ⟨u.toInv.transfer so hn, ?_, ?_, ?_, u.ret⟩
+  refine ⟨u.toInv.transfer so hn, ?_, ?_, ?_, u.ret, u.wt, u.pw⟩
   · obtain ⟨b, hb, hl⟩ := u.items
     refine ⟨b, hb, fun j h1 h2 => ?_⟩
     rw [(so b (mem_owned.2 (Or.inr (Or.inl hb)))).st]
